@@ -23,7 +23,12 @@ import (
 // and one is a fallback (see errFallbacks).
 
 // benign error predicates: nil may be returned on an edge where one holds
-var benignPreds = []string{"errors.IsConflict", "errors.IsNotFound", "errors.IsAlreadyExists", "errors.IsInvalid", "resource.IsNotAllowed", "meta.IsNoMatchError", "errors.IsGone"}
+var benignPreds = []string{"composite.IsOptionalFieldPathNotFound", "errors.IsConflict", "errors.IsNotFound", "errors.IsAlreadyExists", "errors.IsInvalid", "resource.IsNotAllowed", "meta.IsNoMatchError", "errors.IsGone"}
+
+// benignIn: "<function>|<predicate>" benign in that function only
+var benignIn = map[string]string{
+	"Delete|os.IsNotExist": "FsPackageCache.Delete: removing an entry that is not there is the requested end state",
+}
 
 // errFallbacks: "<function>|<callee>" whose failure selects another strategy instead of failing the function
 var errFallbacks = map[string]string{
@@ -56,7 +61,7 @@ func ErrorDiscipline(c *Ctx, id string, floor int) {
 		}
 		for _, call := range cfgx.Calls(fn, nil) {
 			ev := cfgx.ErrEvents(call)
-			if ev == nil || len(ev.Fail) == 0 {
+			if ev == nil || (len(ev.Fail) == 0 && len(ev.PredTrue) == 0) {
 				continue
 			}
 			var benign []cfgx.Edge
@@ -70,11 +75,30 @@ func ErrorDiscipline(c *Ctx, id string, floor int) {
 			}
 			bad := ""
 			var w []string
-			for _, r := range cfgx.ErrorReturnsFrom(ev.Fail, nil) {
+			// a predicate of the error that holds also says the step failed: the same discipline
+			// applies behind predicates that are not in the benign list (`if IsNotFound(err) { return nil }`
+			// written before the nil test)
+			fail := append([]cfgx.Edge{}, ev.Fail...)
+			for name, es := range ev.PredTrue {
+				isBenign := false
+				for _, p := range benignPreds {
+					if p == name {
+						isBenign = true
+					}
+				}
+				if _, here := benignIn[fn.Name()+"|"+name]; here {
+					isBenign = true
+					benign = append(benign, es...)
+				}
+				if !isBenign {
+					fail = append(fail, es...)
+				}
+			}
+			for _, r := range cfgx.ErrorReturnsFrom(fail, nil) {
 				if !r.Nil {
 					continue
 				}
-				if okc, _ := cfgx.MustCross(r.At, ev.Fail, nil); !okc {
+				if okc, _ := cfgx.MustCross(r.At, fail, nil); !okc {
 					continue // also reachable without the failure: not the failure's own outcome
 				}
 				if len(benign) > 0 {
